@@ -45,6 +45,47 @@ def projection(pid, pkt_text):
     return n, enc, dec
 
 
+def exec_search(lang, text, paths):
+    """Run the emitted Go / Python of one program against the stand-in runtime (harness/goexec.py, pyexec.py) and return the
+    first sample message of one of the packets `paths` on which the executed code disagrees with the wire specification."""
+    import subprocess
+    import tempfile
+    d = tempfile.mkdtemp(prefix="execsearch_", dir=core.BUILD)
+    f = os.path.join(d, "prog.dsl")
+    open(f, "w").write(text)
+    out = os.path.join(d, "report.json")
+    if lang == "go":
+        cmd = [sys.executable, os.path.join(core.VERIF, "harness", "goexec.py"), "--dsl-file", f, "--no-engine", "--no-sem", "--report", out]
+    else:
+        cmd = [sys.executable, os.path.join(core.VERIF, "harness", "pyexec.py"), "--dsl-file", f, "--no-engine", "--out", out]
+    try:
+        subprocess.run(["timeout", "600"] + cmd, stdout=subprocess.PIPE, stderr=subprocess.STDOUT, cwd=core.VERIF)
+        rep = json.load(open(out))
+    except Exception:
+        return None
+    prog = next(iter(rep.get("programs", {}).values()), None)
+    if not prog:
+        return None
+    ok = ("Agree", "NotAMessage")
+    rel = lambda path: path in paths or any(path.startswith(q + "/") or q.startswith(path + "/") for q in paths)
+    if lang == "go":
+        for path, msgs in prog.items():
+            if not isinstance(msgs, dict) or not rel(path):
+                continue
+            for label, v in msgs.items():
+                if isinstance(v, dict) and v.get("verdict") not in ok and not str(v.get("verdict")).startswith(("BuildFails", "Unbuildable")):
+                    return {"packet": path, "label": label, "verdict": v.get("verdict"), "detail": v.get("detail")}
+    else:
+        for path, pk in (prog.get("packets") or {}).items():
+            if not rel(path):
+                continue
+            for m in pk.get("messages") or []:
+                if m.get("verdict") not in ok and m.get("verdict") != "ImportFails":
+                    return {"packet": path, "label": "%s (checksum %s)" % (m.get("label"), "registered" if m.get("registered") else "unregistered"),
+                            "verdict": m.get("verdict"), "detail": m.get("detail")}
+    return None
+
+
 @handler("C01", "C02", "C03", "C04", "C05", "C06")
 def codec_check(res, known, args):
     import engine
@@ -140,6 +181,16 @@ def codec_check(res, known, args):
             bad = [x for x in bad if x[2] in paths or any(x[2].startswith(q + "/") or q.startswith(x[2]) for q in paths)]
             what = "; ".join(k for k, _ in items)
             junk = [t for path in paths for t in re.findall(r"[ED]Junk<[^>]*>", p["langs"][lang]["observed"].get(path, ""))]
+            if junk and lang in ("go", "py"):
+                # the toolchain of this language is here: RUN the emitted code against the stand-in runtime
+                hit = exec_search(lang, p["text"], paths)
+                if hit is not None:
+                    res.violation({"kind": "codec", "what": "the %s code emitted for packet %s, really executed against the stand-in runtime, does not implement the wire layout: %s"
+                                   % (lang, hit["packet"], hit["verdict"]), "difference": what, "dsl": p["text"], "lang": lang, "packet": hit["packet"],
+                                   "message_label": hit["label"], "verdict": hit["verdict"], "detail": hit.get("detail"),
+                                   "oracle": "harness/%sexec.py (execution of the emitted code; stand-in runtime = the contract of IR/Sem.v)" % lang,
+                                   "unrecognised": junk[:8]}, found=True)
+                    continue
             if junk:
                 # text the extractor cannot interpret: the IR semantics of that packet is not trusted
                 res.violation({"kind": "correspondence", "what": "the emitted %s code of packet(s) %s contains statements the template inverse does not recognise; the property is no longer shown for them"
@@ -171,6 +222,9 @@ def codec_check(res, known, args):
         "samples": samples_out or [{"note": "no fully validated case in this run"}],
         "engine_cached": r.get("cached", False), "engine_wall_s": r.get("wall_s"),
     })
+    if pid in ("C01", "C02", "C03") and (res.tier == "thorough" or os.environ.get("VERIF_EXEC")):
+        import checks2
+        checks2.exec_acceptance(res, known)
     res.assumptions += ["the runtime honours the API the emitted code calls, as written down in coq/IR/Sem.v",
                         "messages are positional values; floats are their IEEE bit patterns; strings their UTF-8 bytes"]
 
